@@ -174,6 +174,15 @@ func c02Exec(c fw.Case) *fw.Result {
 	r := gen.New(c.Seed, "c02")
 	nb := r.Range(12, 60)
 	f := pbfw.GenFile(r, pbfw.GenOpts{MinBlocks: nb, MaxBlocks: nb, MaxGroups: 2, MaxElems: 20})
+	if c.Int("bigblock") == 1 {
+		// blocks beyond the customary 8000 elements (the format only recommends that size)
+		var ctr int64 = 1 << 30
+		for _, bi := range []int{1, len(f.Blocks) / 2} {
+			n := []int{8001, 8005, 16000, 16001, 9000}[r.Intn(5)]
+			b := f.Blocks[bi]
+			b.Groups = []*pbfw.Group{pbfw.GenGroupIDs(r, b, pbfw.KDense, n, &ctr, pbfw.GenOpts{Plain: true, SmallStrings: true})}
+		}
+	}
 	if c.Int("noheader") == 1 {
 		f.Header = nil // a resumed stream: the first block is a data block
 	}
@@ -362,7 +371,7 @@ func c02Cases(tier string, seed uint64) []fw.Case {
 	add := func(v string, n int) {
 		for i := 0; i < n; i++ {
 			cs = append(cs, fw.Case{Kind: "schedule", Variant: v, Seed: gen.Sub(seed, "c02"+v, i/3),
-				P: map[string]int64{"procs": procs[i%len(procs)], "gomaxprocs": gmps[(i/len(procs))%len(gmps)], "noheader": int64(b2i(i%5 == 3))},
+				P: map[string]int64{"procs": procs[i%len(procs)], "gomaxprocs": gmps[(i/len(procs))%len(gmps)], "noheader": int64(b2i(i%5 == 3)), "bigblock": int64(b2i(i%30 == 7))},
 				S: map[string]string{"plan": c02Plans[(i/2)%len(c02Plans)]}})
 		}
 	}
@@ -382,7 +391,7 @@ func init() {
 	fw.Register(&fw.Prop{
 		ID:    "C02",
 		Level: "exploration",
-		Rule: "PRNG files of 12-60 small mixed blocks (a fifth of them without header block, i.e. resumed streams); decoder counts {1,2,3,4,7,10,11,16,32}; perturbation plans {none, reverse staircase, one slow worker, slow reader, slow consumer, bursty, random, Gosched storm} injected in the reader's Read, the decoders' filter callbacks and the consumer loop; GOMAXPROCS {default,1,2,16}; half the runs under the race detector; plus 3-8 scanners over different files running concurrently in one process. " +
+		Rule: "PRNG files of 12-60 small mixed blocks, a thirtieth of them with blocks of 8001-16001 elements (a fifth of them without header block, i.e. resumed streams); decoder counts {1,2,3,4,7,10,11,16,32}; perturbation plans {none, reverse staircase, one slow worker, slow reader, slow consumer, bursty, random, Gosched storm} injected in the reader's Read, the decoders' filter callbacks and the consumer loop; GOMAXPROCS {default,1,2,16}; half the runs under the race detector; plus 3-8 scanners over different files running concurrently in one process. " +
 			"Schedules are sampled, not enumerated. Signature = (decoders, plan, GOMAXPROCS, run had a completion inversion, consumer overlapped a later block's decoding); the evidence also counts distinct block-completion permutations.",
 		Assumptions: []string{
 			"filter callbacks always return true here, so the sequence must equal the unfiltered model sequence",
